@@ -43,10 +43,10 @@ if os.environ.get("VP_C01_NOEXCLUDE"):  # debugging aid: search the excluded sha
 KINDS = ["generic", "block", "assembly", "core"]
 OPS = {
     "generic": ["add", "insert", "remove", "removeAll", "setChildren", "sort", "readd", "deepcopy", "pickle", "reject"],
-    "block": ["add", "remove", "removeAll", "setChildren", "sort", "replaceBlock", "readd", "deepcopy", "pickle", "reject"],
-    "assembly": ["add", "insert", "remove", "removeAll", "setChildren", "sort", "reestablish", "adjust", "replaceBlock", "readd",
+    "block": ["add", "remove", "removeAll", "setChildren", "sort", "pinGrid", "rotate", "replaceBlock", "readd", "deepcopy", "pickle", "reject"],
+    "assembly": ["add", "insert", "remove", "removeAll", "setChildren", "sort", "reestablish", "adjust", "pinGrid", "rotate", "replaceBlock", "readd",
                  "deepcopy", "pickle", "reject"],
-    "core": ["add", "insert", "remove", "removeAll", "setChildren", "sort", "reestablish", "adjust", "replaceBlock", "coreAdd",
+    "core": ["add", "insert", "remove", "removeAll", "setChildren", "sort", "reestablish", "adjust", "pinGrid", "rotate", "replaceBlock", "coreAdd",
              "coreRemove", "readd", "deepcopy", "pickle", "reject"],
 }
 STRUCTURAL = {"adjust", "add", "insert", "remove", "removeAll", "setChildren", "replaceBlock", "coreAdd", "coreRemove", "readd"}
@@ -146,7 +146,7 @@ def _armi():
 
 
 class Node:
-    __slots__ = ("nid", "obj", "cls", "geom", "children", "parent", "detached", "copied", "locs", "last")
+    __slots__ = ("nid", "obj", "cls", "geom", "children", "parent", "detached", "copied", "locs", "last", "tempgrid")
 
     def __init__(self, nid, obj, cls, geom):
         self.nid, self.obj, self.cls, self.geom = nid, obj, cls, geom
@@ -156,6 +156,7 @@ class Node:
         self.copied = False  # belongs to a tree produced by deepcopy / pickle
         self.locs = {}  # Core only: (i, j) -> assembly node id
         self.last = None  # id of the parent it was last removed from
+        self.tempgrid = False  # component handed over by replaceBlockWithBlock: may sit on the temporary copy's pin grid
 
     def __repr__(self):
         return "#%d%s" % (self.nid, self.cls)
@@ -686,11 +687,43 @@ class Interp:
         p.obj.reestablishBlockOrder()
         return True
 
+    def pin_grid(self, b):
+        """HexBlock.autoCreateSpatialGrids (blueprints call it on new blocks): pins get one MultiIndexLocation, the
+        others a CoordinateLocation in the new grid; 'Raises ValueError' for blocks that are not simple."""
+        try:
+            b.obj.autoCreateSpatialGrids()
+        except ValueError:
+            self.out.label("pinGrid:refused")
+            return
+        self.out.label("pinGrid:made")
+
+    def op_pinGrid(self, r):
+        b = self.pick([p for p in self.nodes if p.cls == "B" and p.geom == "hex" and p.obj.spatialGrid is None], r["t"])
+        if b is None:
+            return False
+        self.pin_grid(b)
+        return True
+
+    def op_rotate(self, r):
+        """HexBlock.rotate / HexAssembly.rotate by a multiple of 60 degrees (rebuilds the children's locations)."""
+        import math
+
+        n = self.pick([p for p in self.nodes if p.cls in ("A", "B") and p.geom == "hex"], r["t"])
+        if n is None:
+            return False
+        n.obj.rotate((1 + r["a"] % 5) * math.pi / 3.0)
+        if any(isinstance(c.obj.spatialLocator, self.A.grids.MultiIndexLocation) and c.obj.spatialLocator.grid is not None
+               for x in self.subtree(n) if x.cls == "B" for c in self.kids(x)):
+            self.out.label("rotate:pin-lattice")
+        return True
+
     def op_replaceBlock(self, r):
         b = self.pick([p for p in self.nodes if p.cls == "B"], r["t"])
         if b is None or not self.room(20):
             return False
-        rep = self.make_block(r["a"], b.geom)
+        rep = self.make_block(r["a"] if r["c"] % 3 else 0, b.geom)  # (0 = the pin block)
+        if r["f"] and b.geom == "hex":
+            self.pin_grid(rep)
         old = self.kids(b)
         b.obj.replaceBlockWithBlock(rep.obj)
         for c in old:
@@ -706,7 +739,9 @@ class Interp:
                 self.fail("replace/shares-node", "%r of the replaced block is an object that already existed" % (g,))
                 raise Stop()
             self.check_links(g, "replaceBlockWithBlock")  # the new components are copies of the replacement's
-            self.link(b, self.new_node(g, "C"))
+            c = self.new_node(g, "C")
+            c.tempgrid = True
+            self.link(b, c)
         return True
 
     def op_coreRemove(self, r):
@@ -847,6 +882,12 @@ class Interp:
                     self.fail("copy/child-locator-not-in-copy-grid", "%s of %r: locator of child %r has grid %r" % (how, o, c2, l2.grid))
                 elif l2.grid is not None and l2.grid is not g2:
                     self.fail("copy/child-locator-foreign-grid", "%s of %r: locator of child %r has grid %r" % (how, o, c2, l2.grid))
+                elif isinstance(l2, self.A.grids.MultiIndexLocation) and all(cell.grid is l.grid for cell in l) \
+                        and any(cell.grid is not l2.grid for cell in l2):
+                    # "grids at the new owner": every cell of a multi-cell location follows the location, as in the original
+                    # (MultiIndexLocation.detachedCopy keeps the cells of the grid it left: such a location is not judged)
+                    self.fail("copy/multi-location-cell-not-in-copy-grid", "%s of %r: child %r sits on %r but its cells on %r"
+                              % (how, o, c2, l2.grid, sorted({repr(cell.grid) for cell in l2})))
         if n.cls == "C":
             self.check_links(o2, how)
         return m
@@ -925,7 +966,11 @@ class Interp:
             g = o.spatialGrid
             if g is not None and g.armiObject is not o:
                 self.fail("tree/grid-owner", "%r.spatialGrid.armiObject is %r" % (o, g.armiObject))
-            if n.parent is not None and loc is not None and loc.grid is not None and loc.grid is not self.par(n).obj.spatialGrid:
+            if n.parent is not None and loc is not None and loc.grid is not None and not n.detached and isinstance(loc, self.A.grids.MultiIndexLocation):
+                if any(cell.grid is not loc.grid for cell in loc):
+                    self.fail("tree/multi-location-cell-grid", "%r: cells of its multi-cell location belong to %r, the location to %r"
+                              % (o, [cell.grid for cell in loc][:2], loc.grid))
+            if n.parent is not None and loc is not None and loc.grid is not None and loc.grid is not self.par(n).obj.spatialGrid and not n.tempgrid:
                 self.fail("tree/locator-foreign-grid", "locator of %r belongs to the grid of %r, parent is %r" % (o, loc.grid.armiObject, o.parent))
         if self.out.violations:
             raise Stop()
